@@ -4,10 +4,12 @@ import (
 	"fmt"
 	"sort"
 	"strings"
+	"sync"
 	"testing"
 
 	"github.com/bronlabs/bron-crypto/pkg/proofs/sigma/compiler"
 	"github.com/bronlabs/bron-crypto/pkg/proofs/sigma/compiler/fiatshamir"
+	"github.com/bronlabs/bron-crypto/pkg/proofs/sigma/compiler/fischlin"
 	"verif/harness/vlib"
 )
 
@@ -25,7 +27,78 @@ const (
 
 var knownIDs = []string{knownNilComponent}
 
+// nilFindingPresent probes ONCE per process whether C08-nil-component-panic is present in the tree under
+// test: five small proofs (sites whose panic is recoverable) with one nested component set to CBOR null are
+// verified under recover(). While it is present, exactly its inputs are excluded (matchKnown) and the
+// process-killing ones are not executed (crashRisk); once the tree rejects all probes the exclusion disables
+// itself: every operator is executed on every shape under the normal oracle (reject, no panic).
+var (
+	nilProbeOnce    sync.Once
+	nilProbePresent bool
+	nilProbeNote    string
+)
+
+func nilFindingPresent() bool {
+	nilProbeOnce.Do(func() {
+		probes := []struct {
+			sp   spec
+			cn   compiler.Name
+			path string
+		}{
+			{spec{Kind: "batch-schnorr", Group: "k256", Seed: 1, WClass: "rnd", Gen: "std", N: 2}, fiatshamir.Name, ".A.a"},
+			{spec{Kind: "andc(S,O)", Group: "k256", Seed: 2, WClass: "rnd", Gen: "std", N: 2}, fiatshamir.Name, ".A.A1"},
+			{spec{Kind: "and^n(S)", Group: "k256", Seed: 3, WClass: "rnd", Gen: "std", N: 2}, fiatshamir.Name, ".A[0]"},
+			{spec{Kind: "orc(S,O)", Group: "k256", Seed: 4, WClass: "rnd", Gen: "std", N: 2}, fiatshamir.Name, ".A.A0"},
+			{spec{Kind: "or^n(S)", Group: "k256", Seed: 5, WClass: "rnd", Gen: "std", N: 2}, fischlin.Name, ".z[0].Z[0]"},
+		}
+		var hits, notes []string
+		for _, pr := range probes {
+			in := buildSpec(pr.sp)
+			cs := ctxSpec{Seed: pr.sp.Seed}
+			ctxP, err := cs.build(proverID)
+			if err != nil {
+				panic("harness: probe context: " + err.Error())
+			}
+			proof, err := in.Prove(pr.cn, ctxP, pr.sp.Seed, false)
+			if err != nil {
+				panic("harness: probe proof: " + err.Error())
+			}
+			root, err := decodeTree(proof)
+			if err != nil {
+				panic("harness: probe proof: " + err.Error())
+			}
+			found := false
+			for _, s := range walk(root) {
+				if s.path == pr.path && applyAt(s, "null") {
+					found = true
+					break
+				}
+			}
+			if !found {
+				panic("harness: probe site " + pr.path + " not found in a " + pr.sp.Kind + " proof")
+			}
+			ctxV, _ := cs.build(verifierID)
+			var verr error
+			msg, _ := catchPanic(func() { verr = in.Verify(pr.cn, ctxV, 1, "", false, root.encode(), false) })
+			switch {
+			case msg != "" && (strings.Contains(msg, "nil pointer dereference") || strings.Contains(msg, "called using nil")):
+				hits = append(hits, fmt.Sprintf("%s/%s%s", pr.sp.Kind, pr.cn, pr.path))
+			case msg != "":
+				notes = append(notes, fmt.Sprintf("%s/%s%s: other panic %s", pr.sp.Kind, pr.cn, pr.path, firstLine(msg)))
+			case verr == nil:
+				notes = append(notes, fmt.Sprintf("%s/%s%s: ACCEPTED", pr.sp.Kind, pr.cn, pr.path))
+			}
+		}
+		nilProbePresent = len(hits) > 0
+		nilProbeNote = fmt.Sprintf("probe: %d of %d null placements panic with a nil dereference [%s] %s", len(hits), len(probes), strings.Join(hits, "; "), strings.Join(notes, "; "))
+	})
+	return nilProbePresent
+}
+
 func matchKnown(in inst, cn compiler.Name, m mutation, violation, panicMsg string) string {
+	if !nilFindingPresent() {
+		return ""
+	}
 	switch {
 	case violation == "panic" && (strings.Contains(panicMsg, "nil pointer dereference") || strings.Contains(panicMsg, "called using nil")) &&
 		(m.op == "null" || m.op == "map-drop"):
@@ -38,7 +111,7 @@ func matchKnown(in inst, cn compiler.Name, m mutation, violation, panicMsg strin
 // goroutine of an n-ary composition (observed: and^2(or^2(S)) under Fiat-Shamir with Z[i] = null dies in
 // sigor.(*Protocol).Verify called from sigand.(*Protocol).Verify.func1). They are excluded without being run.
 func crashRisk(in inst, m mutation) bool {
-	if (m.op != "null" && m.op != "map-drop") || runCrashRisk() {
+	if (m.op != "null" && m.op != "map-drop") || runCrashRisk() || !nilFindingPresent() {
 		return false
 	}
 	sh := in.Shape()
@@ -240,7 +313,11 @@ func TestTamperEveryClass(t *testing.T) {
 		}
 		note := "make Verify panic with a nil dereference (null / map-drop mutants of and^n(or^m(..)) and or^n(andc(..)) shapes are NOT executed: " +
 			"there the dereference happens in an errgroup goroutine and kills the process; they are counted under excluded_known)"
-		vlib.Known(id, len(hits[id]) > 0, fmt.Sprintf("shard observation: %d of %d enumerated (site class, operator) placements %s: %s", len(hits[id]), sites, note, what))
+		present := nilFindingPresent()
+		if len(hits[id]) > 0 && !present {
+			t.Errorf("harness: hits of %s recorded although the probe reports it absent", id)
+		}
+		vlib.Known(id, present, fmt.Sprintf("%s; shard observation: %d of %d enumerated (site class, operator) placements %s: %s", nilProbeNote, len(hits[id]), sites, note, what))
 	}
 	vlib.Exhaustive("one proof per (15 protocol / composition kinds x 3 compilers) (every site class x 12 deterministic operator variants) and per (nthroot, prm, cggmp21 enc / fac / blummod x Fiat-Shamir: every site class x 6 structural variants)")
 }
